@@ -5,7 +5,7 @@ the oracle is intrinsic (no panic, library error type, position inside the sourc
 import json, os, re
 import vcommon as vc
 
-BAD = re.compile(r"(PANIC\(|FOREIGN\(|BADPOS\(|ERRORPANIC\(|HANG|no_EOF)")
+BAD = re.compile(r"(PANIC\(|FOREIGN\(|BADPOS\(|ERRORPANIC\(|KITLOSS\(|HANG|no_EOF)")
 TOKENS = [b"{", b"}", b"[", b"]", b'"', b":", b",", b"//", b"/*", b"*/", b"#", b"###", b"@", b"|", b"\n", b"\r\n", b" ", b"\t",
           b"0", b"1", b"-", b".", b"e", b"E", b"+", b"\\", b"\\u", b"a", b"true", b"null", b"@t", b"\x00", b"\x1f", b"\x7f", b"\xff",
           b"// {", b"{min: 1}", b'{type: "@t"}', b"optional", b'{or: [', b"/", b"*", b"nullable: true", b'{enum: @e}', b"{regex: \"a\"}"]
@@ -150,7 +150,7 @@ def gen_cases(ctx, quick):
     return cases
 
 
-SIG = re.compile(r"(\w+):((?:PANIC|FOREIGN|BADPOS|ERRORPANIC)\([^;]*\)|HANG|L\d+@\d+;no_EOF)")
+SIG = re.compile(r"(\w+):((?:PANIC|KITPANIC|KITLOSS|FOREIGN|BADPOS|ERRORPANIC)\([^;]*\)|HANG|L\d+@\d+;no_EOF)")
 
 
 def signature(out):
